@@ -132,6 +132,12 @@ class FnEffects(ast.NodeVisitor):
             elif isinstance(node, ast.Call) and isinstance(node.func, ast.Attribute) and node.func.attr in MUTATORS:
                 if self.shared(node.func.value):
                     self.writes.append("call " + ast.unparse(node.func))
+            elif isinstance(node, ast.Call) and node.args and (
+                    (isinstance(node.func, ast.Name) and node.func.id in ("setattr", "delattr"))
+                    or (isinstance(node.func, ast.Attribute) and node.func.attr in ("__setattr__", "__delattr__"))):
+                # setattr(obj, name, value) / object.__setattr__(obj, name, value): a store spelled as a call
+                if self.shared(node.args[0]):
+                    self.writes.append("call " + ast.unparse(node.func) + " on " + ast.unparse(node.args[0]))
         return self.writes
 
 
